@@ -187,3 +187,9 @@ def convert_version(
         model_proto.graph.Clear()
         del model_proto.functions[:]
         model_proto.graph.CopyFrom(ir.to_proto(model.graph))
+        # The converted nodes are only valid under the opset the IR model now declares
+        del model_proto.opset_import[:]
+        model_proto.opset_import.extend(
+            onnx.helper.make_opsetid(domain, version)
+            for domain, version in model.opset_imports.items()
+        )
